@@ -261,7 +261,12 @@ finish:
   child.err = redirect_destroy(child.err, options.redirect.err.type);
 #endif
 
-  pipe_destroy(child.exit);
+  // In the forked child (`r == 0`) the write end of the exit pipe has to stay
+  // open until the process exits: its closing is how the parent learns that
+  // the child has exited.
+  if (r != 0) {
+    pipe_destroy(child.exit);
+  }
 
   if (r < 0) {
     process->handle = process_destroy(process->handle);
